@@ -1577,7 +1577,7 @@ func swarmPart(r *run.R) {
 			r.Nontrivial(h.ID)
 		}
 		if wantSample {
-			n := min(len(obs.Steps), 14)
+			n := min(len(obs.Steps), 8)
 			r.Sample(map[string]any{"kind": "swarm history (first steps)", "history": detail(n - 1)["history"], "observed": detail(n - 1)["observed"]})
 		}
 		// twin: the same history without the read-only swarm's traffic; the regular swarm and the counters
